@@ -326,6 +326,7 @@ func c05NameChanging(ctx *Ctx, r *Report, eng *effectsEngine) {
 		}
 		c05SelectorConsistency(ctx, r, p)
 		c05UnconditionalRewrite(ctx, r, p, []*types.Var{refReferred, crefReferred, mapping})
+		c05RenameGuardShape(ctx, r, p, map[*types.Var]bool{objName: true, refReferred: true, crefReferred: true, mapping: true, entryPoint: true})
 	}
 	r.Count("name-changing passes", nameChanging)
 	r.Floor("name-changing passes", 2)
@@ -941,4 +942,104 @@ func c05DirectStores(ctx *Ctx, p passInfo) []WriteFact {
 		})
 	}
 	return out
+}
+
+// c05RenameGuardShape: in a selective name-changing pass, the condition under
+// which the object is renamed and the conditions under which each
+// reference-bearing position is rewritten must all be the bare selector test
+// (Matches / MatchesRef of the same configured reference), with nothing
+// conjoined: any extra conjunct on one side renames objects without their
+// references, or references without their object.
+func c05RenameGuardShape(ctx *Ctx, r *Report, p passInfo, nameFields map[*types.Var]bool) {
+	pkg := ctx.Pkg("internal/ast/compiler")
+	info := pkg.TypesInfo
+	for _, fd := range methodsOf(ctx, p.named) {
+		parents := parentMap(fd)
+		fobj, _ := info.Defs[fd.Name].(*types.Func)
+		n := 0
+		ast.Inspect(fd.Body, func(node ast.Node) bool {
+			as, ok := node.(*ast.AssignStmt)
+			if !ok {
+				return true
+			}
+			for _, l := range as.Lhs {
+				lu := ast.Unparen(l)
+				target := lu
+				if ix, ok := lu.(*ast.IndexExpr); ok {
+					target = ix.X
+				}
+				f := fieldOf(info, target)
+				if f == nil || !nameFields[f] {
+					continue
+				}
+				if root := rootIdent(lu); root != nil && isFreshLocal(info, fd, objOf(info, root)) {
+					continue
+				}
+				conds := enclosingConds(parents, as)
+				if len(conds) == 0 {
+					continue // unconditional passes are handled by rewrite-unconditional
+				}
+				n++
+				bad := ""
+				for _, c := range conds {
+					cond := ast.Unparen(c.stmt.Cond)
+					if u, ok := cond.(*ast.UnaryExpr); ok && u.Op == token.NOT {
+						cond = ast.Unparen(u.X)
+					}
+					switch x := cond.(type) {
+					case *ast.CallExpr:
+						fn := callee(info, x)
+						if fn != nil && (fn.Name() == "Matches" || fn.Name() == "MatchesRef" || fn.Name() == "HasHint" || fn.Name() == "EqualFold") {
+							continue
+						}
+						if fn != nil && strings.HasPrefix(fn.Name(), "Is") {
+							continue // kind test (e.g. only structs are unspec-ed)
+						}
+						bad = exprString(c.stmt.Cond)
+					case *ast.BinaryExpr:
+						if x.Op == token.LAND || x.Op == token.LOR {
+							// a conjunction is fine only if every conjunct is a selector/kind test of the visited item
+							okAll := true
+							var visit func(e ast.Expr)
+							visit = func(e ast.Expr) {
+								e = ast.Unparen(e)
+								if be, ok := e.(*ast.BinaryExpr); ok && (be.Op == token.LAND || be.Op == token.LOR) {
+									visit(be.X)
+									visit(be.Y)
+									return
+								}
+								if u, ok := e.(*ast.UnaryExpr); ok && u.Op == token.NOT {
+									okAll = false // a negated extra condition narrows one side only
+									return
+								}
+								if ce, ok := e.(*ast.CallExpr); ok {
+									if fn := callee(info, ce); fn != nil && (fn.Name() == "Matches" || fn.Name() == "MatchesRef" || fn.Name() == "EqualFold" || strings.HasPrefix(fn.Name(), "Is")) {
+										return
+									}
+								}
+								if be, ok := e.(*ast.BinaryExpr); ok && (be.Op == token.EQL || be.Op == token.NEQ) {
+									return
+								}
+								okAll = false
+							}
+							visit(x)
+							if !okAll {
+								bad = exprString(c.stmt.Cond)
+							}
+							continue
+						}
+						// simple comparison (found-in-map test, != "")
+					case *ast.Ident:
+						// boolean result of a lookup (`found`)
+					default:
+						bad = exprString(c.stmt.Cond)
+					}
+				}
+				cons := fmt.Sprintf("%s guard of %s", ctx.FuncName(fobj), exprString(lu))
+				r.Check(bad == "", "effects/rename-guard-shape", cons, as.Pos(), "guarded by the selector test only",
+					"the rename/rewrite of "+exprString(lu)+" is subject to an extra condition ("+bad+") that the other name-bearing positions are not subject to: the object and the references to it are no longer renamed together")
+			}
+			return true
+		})
+	}
 }
